@@ -40,11 +40,12 @@ theorem policyConnsIsEmpty_eq (pc : PolicyConns) :
   simp [Gen.policyConnsIsEmpty, PolicyConns.isEmpty, Bool.and_assoc]
 
 theorem isPodToItself_eq (p q : Pod) (n m : Option NsObj) :
-    Gen.isPodToItself true true p.name q.name p.ns q.ns = Engine.isPodToItself (.pod p n) (.pod q m) := by
+    Gen.isPodToItself true true p.name q.name p.ns q.ns p.fake q.fake =
+      Engine.isPodToItself (.pod p n) (.pod q m) := by
   simp [Gen.isPodToItself, Engine.isPodToItself]
 
-theorem isPodToItself_ip (r : CSet) (k : KPeer) (a b c d : String) :
-    Gen.isPodToItself false k.isPod a b c d = Engine.isPodToItself (.ip r) k := by
+theorem isPodToItself_ip (r : CSet) (k : KPeer) (a b c d : String) (f g : Bool) :
+    Gen.isPodToItself false k.isPod a b c d f g = Engine.isPodToItself (.ip r) k := by
   cases k <;> simp [Gen.isPodToItself, Engine.isPodToItself, KPeer.isPod]
 
 /-- `isPeerFocusWorkload` on a workload peer -/
